@@ -125,3 +125,77 @@ class World(ControlWorld):
             self.violate("C16.member_help", f"the session ended during help requests: {s.task}")
         s.reader.feed_eof()
         await self.idle()
+
+
+# ---------------------------------------------------------------------- over real sockets
+from . import c19  # noqa: E402
+
+
+class ServerWorld(c19.World):
+    """C16 over a real control server: several clients whose connects and handshakes interleave; every one of them must
+    get the pool name and a working command surface."""
+
+    def violate(self, clause, msg):
+        # everything that goes wrong here is about the handshake / command surface
+        if not clause.startswith("C16."):
+            clause = "C16.handshake" if "handshake" in msg or "connect" in msg else "C16.member_help"
+        super().violate(clause, msg)
+
+    async def _main2(self):
+        sc = self.sc
+        started = await self.start_server(clause="C16.handshake")
+        if started is None:
+            return
+        srv, task = started
+        cls = type(self.pool)
+        members = public_members(cls)
+        for act in sc["order"]:
+            kind, c = act[0], act[1]
+            if kind == "open":
+                await self.connect(c, hello=False)
+            elif kind == "connect":
+                await self.connect(c)
+            elif kind == "hello":
+                cl = self.clients.get(c)
+                if cl is not None and getattr(cl, "pending_hello", False):
+                    await self.hello(cl)
+        # every client that shook hands must be able to use the command surface
+        import random as _r
+
+        rng = _r.Random(sc["seed"])
+        for c, cl in sorted(self.clients.items()):
+            if not cl.open:
+                continue
+            for n, member in rng.sample(members, min(4, len(members))):
+                cmd = n.replace("_", "-")
+                got = await self.command(cl, f"{cmd} -h")
+                txt = got.decode(errors="replace")
+                if not squash(txt).startswith("usage:" + squash(cmd)):
+                    self.violate("C16.member_help", f"client {c} (handshake order {sc['order']}): '{cmd} -h' answered {txt[:80]!r}")
+                    break
+                self.sit["C16.member_help_ok"] += 1
+            else:
+                self.sit["C16.socket_clients_ok"] += 1
+        for cl in self.clients.values():
+            if cl.writer is not None and not cl.writer.is_closing():
+                await self.disconnect(cl, "close")
+        task.cancel()
+        self.stopped = True
+        await self.settle()
+
+
+def gen_server_case(rng):
+    n = rng.choice([1, 2, 2, 3])
+    order = []
+    pending = []
+    for c in range(n):
+        if rng.random() < 0.6:
+            order.append(["open", c])
+            pending.append(c)
+        else:
+            order.append(["connect", c])
+        while pending and rng.random() < 0.4:
+            order.append(["hello", pending.pop(rng.randrange(len(pending)))])
+    while pending:
+        order.append(["hello", pending.pop(rng.randrange(len(pending)))])
+    return {"server": True, "transport": rng.choice(["tcp", "unix"]), "cls": rng.choice(["T", "S"]), "order": order, "nclients": n, "seed": rng.getrandbits(32)}
